@@ -68,9 +68,27 @@ def gen_sel(rng):
 
 def gen(rng, tier, quarantine=()):
     ops = []
-    nprobes = rng.choice([1, 1, 2])
+    nprobes = rng.choice([1, 2, 2, 3])
+    prev = None
     for i in range(nprobes):
         sel = gen_sel(rng)
+        if prev is not None and rng.random() < 0.6:
+            # a variation of the previous selector: same elements (interned by ptera), one
+            # condition changed or dropped -- conditions must not travel between selectors
+            import copy
+
+            sel = copy.deepcopy(prev)
+            caps = [c for lv in sel["levels"] for c in lv["caps"]]
+            conditioned = [c for c in caps if c.get("cond")]
+            if conditioned:
+                victim = rng.choice(conditioned)
+                if rng.random() < 0.5:
+                    victim.pop("cond")
+                else:
+                    victim["cond"] = gen_cond(rng)
+            elif caps:
+                rng.choice(caps)["cond"] = gen_cond(rng)
+        prev = sel
         if rng.random() < 0.3:
             ops.append({"op": "mk", "id": f"o{i}", "kind": "overridable", "sels": [sel],
                         "how": ["const", rng.choice([0, 2, 5])], "nojudge": True})
